@@ -6,13 +6,20 @@ import (
 	"fmt"
 	"os"
 	"path/filepath"
+	"strings"
 
 	"verif/engine/rewrite"
 )
 
 func main() {
 	out := flag.String("out", "", "output directory")
+	mr := flag.String("maprange", "", "comma-separated range operands (maps) whose iteration order is explored")
 	flag.Parse()
+	for _, m := range strings.Split(*mr, ",") {
+		if m != "" {
+			rewrite.MapRange[m] = true
+		}
+	}
 	if *out == "" || flag.NArg() == 0 {
 		fmt.Fprintln(os.Stderr, "usage: rewrite -out <dir> <pkgdir>...")
 		os.Exit(2)
